@@ -30,6 +30,22 @@ def _codes(at):
     return at.true_codes | at.false_codes
 
 
+PINO_VALIDATOR = "pinocchio::state::whirlpool::position::validate_tick_range_for_whirlpool"
+
+
+def _pino_validator_view(facts):
+    """(function, lower name, upper name, in_place): the Pinocchio range validator, or - when that one-caller helper was written into
+    reset_position_range and removed - reset_position_range itself, whose own parameters are then the validated bounds."""
+    fn = facts.fn(PINO_VALIDATOR)
+    if fn is not None:
+        return fn, "tick_lower_index", "tick_upper_index", False
+    from analysis import canon
+    ref = (canon.reference(facts.crate) or {}).get("fns", {})
+    if PINO_VALIDATOR in ref and ref[PINO_VALIDATOR].get("callers") == [MP + "::reset_position_range"]:
+        return facts.need_fn(MP + "::reset_position_range"), "new_tick_lower_index", "new_tick_upper_index", True
+    return facts.need_fn(PINO_VALIDATOR), "tick_lower_index", "tick_upper_index", False
+
+
 def R1_range_fields(run):
     run.title("R1", "Position.tick_{lower,upper}_index are written only by open_position / reset_position_range (and the Pinocchio twin's setters), each store "
                     "dominated by validate_tick_range_for_whirlpool(pool, stored lower, stored upper)?; reset also by the emptiness and same-range checks, and zeroes all checkpoints")
@@ -53,7 +69,18 @@ def R1_range_fields(run):
         vc = calls_to(fn, lambda p: p.endswith("validate_tick_range_for_whirlpool"))
         ok = len(vc) == 1 and len(stores) == 2
         why = "expected one validation call and two stores (found %d, %d)" % (len(vc), len(stores))
-        if ok:
+        if not vc and not anchor and len(stores) == 2 and _pino_validator_view(facts)[3]:
+            # the validator written in place (its rejections are decided on this function, below and in R7): every one of its refusals lies
+            # before both stores, and what is stored are the validated parameters
+            _, lo_n, up_n, _ = _pino_validator_view(facts)
+            ref_at = [at for at in A.atoms(fn) if (at.true_fail != at.false_fail) and ({"InvalidTickIndex", "FullRangeOnlyPool"} & (at.true_codes | at.false_codes))]
+            dom = [at for at in ref_at if all(cfg.dominates(fn, at.block, b) for (b, _, _) in stores)]
+            late = [at for at in ref_at if any(at.block in cfg.reach(fn, b) for (b, _, _) in stores)]
+            # (the two full-range refusals sit behind the spacing gate; R7's full-range-gate decides that gate on this function)
+            ok = len(ref_at) >= 5 and len(dom) >= 3 and not late and \
+                is_param(vals["tick_lower_index"], lo_n) and is_param(vals["tick_upper_index"], up_n)
+            why = "the range validation written in place does not precede both stores of the validated bounds"
+        elif ok:
             bi, t, a = vc[0]
             mp, w2 = cfg.must_pass_call(fn, bi)
             if not mp:
@@ -129,8 +156,8 @@ def R1_range_fields(run):
                 ok = len(zc) == 2 and all(const_val(a[1]) == 0 for (_, _, a) in zc) and len(rr) >= 1 and all(rr)
             run.check("R1", "reset-zeroes-checkpoints@" + short, ok, "%s does not reset all growth checkpoints to 0" % path, loc=fn.loc(), detail="fee checkpoints a/b and reward checkpoints := 0")
     # validate_tick_range atoms (both)
-    for path in ("state::position::validate_tick_range_for_whirlpool", "pinocchio::state::whirlpool::position::validate_tick_range_for_whirlpool"):
-        fn = facts.need_fn(path)
+    for path in ("state::position::validate_tick_range_for_whirlpool", PINO_VALIDATOR):
+        fn, lo_n, up_n = (facts.need_fn(path), "tick_lower_index", "tick_upper_index") if path != PINO_VALIDATOR else _pino_validator_view(facts)[:3]
         run.touch(fn)
         short = "anchor" if path.startswith("state") else "pino"
         usable = set()
@@ -143,10 +170,10 @@ def R1_range_fields(run):
                 if at.false_fail and "InvalidTickIndex" in at.false_codes:
                     for a in (t[2] if t[0] == "call" else ()):
                         if strip(a)[0] == "param":
-                            usable.add(strip(a)[1])
+                            usable.add({lo_n: "tick_lower_index", up_n: "tick_upper_index"}.get(strip(a)[1], strip(a)[1]))
             for (op, a, b) in fail_conditions(at):
                 for (o, x, y) in ((op, a, b), (A.SWAP[op], b, a)):
-                    if o == "Ge" and is_param(x, "tick_lower_index") and is_param(y, "tick_upper_index") and "InvalidTickIndex" in _codes(at):
+                    if o == "Ge" and is_param(x, lo_n) and is_param(y, up_n) and "InvalidTickIndex" in _codes(at):
                         order = True
             if "FullRangeOnlyPool" in _codes(at):
                 full = True
@@ -587,8 +614,9 @@ def R7_range_validator(run):
                     "than the full-range lower OR an upper bound other than the full-range upper => FullRangeOnlyPool (each comparison fails on its own); "
                     "check_is_usable_tick = in [MIN, MAX] and a multiple of the spacing")
     facts = run.facts
-    for path in ("state::position::validate_tick_range_for_whirlpool", "pinocchio::state::whirlpool::position::validate_tick_range_for_whirlpool"):
-        fn = facts.need_fn(path)
+    for path in ("state::position::validate_tick_range_for_whirlpool", PINO_VALIDATOR):
+        fn, lo_n, up_n = (facts.need_fn(path), "tick_lower_index", "tick_upper_index") if path != PINO_VALIDATOR else _pino_validator_view(facts)[:3]
+        cn = {lo_n: "tick_lower_index", up_n: "tick_upper_index"}
         run.touch(fn)
         short = "pinocchio" if path.startswith("pinocchio") else "anchor"
         got = set()
@@ -598,17 +626,17 @@ def R7_range_validator(run):
             t = strip(at.term)
             if is_call(t, "check_is_usable_tick") and at.false_fail and "InvalidTickIndex" in codes_f:
                 a0 = strip(t[2][0])
-                got.add("usable(%s)" % (a0[1] if a0[0] == "param" else "?"))
+                got.add("usable(%s)" % (cn.get(a0[1], a0[1]) if a0[0] == "param" else "?"))
             elif c:
                 for (o, x, y, fails) in ((c[0], c[1], c[2], at.true_fail), (A.NEG[c[0]], c[1], c[2], at.false_fail)):
                     if not fails:
                         continue
                     codes = codes_t if fails is at.true_fail and o == c[0] else codes_f
                     for (oo, xx, yy) in ((o, x, y), (A.SWAP[o], y, x)):
-                        if oo == "Ge" and is_param(xx, "tick_lower_index") and is_param(yy, "tick_upper_index") and "InvalidTickIndex" in (at.true_codes | at.false_codes):
+                        if oo == "Ge" and is_param(xx, lo_n) and is_param(yy, up_n) and "InvalidTickIndex" in (at.true_codes | at.false_codes):
                             got.add("lower>=upper")
                         if oo == "Ne" and strip(xx)[0] == "param" and strip(yy)[0] == "field" and is_call(strip(yy)[1], "full_range_indexes") and "FullRangeOnlyPool" in (at.true_codes | at.false_codes):
-                            got.add("%s!=full.%s" % (strip(xx)[1], strip(yy)[2]))
+                            got.add("%s!=full.%s" % (cn.get(strip(xx)[1], strip(xx)[1]), strip(yy)[2]))
         want = {"usable(tick_lower_index)", "usable(tick_upper_index)", "lower>=upper", "tick_lower_index!=full.0", "tick_upper_index!=full.1"}
         run.check("R7", "rejections@" + short, got == want, "%s rejects %s; expected %s" % (path, sorted(got), sorted(want)), loc=fn.loc(), detail="5 independent rejections")
         gate = [at for at in A.atoms(fn) if at.cond() and at.cond()[0] in ("Ge", "Lt") and arg_name(at.cond()[1]) == "tick_spacing" and const_val(at.cond()[2]) == 32768]
